@@ -71,7 +71,9 @@ CLAIMED = {
              "Sha256.cpp with abstract block sizes and TLC checks the prefix/padding invariants and 'every finalize = "
              "Blocks(Pad(message))' (chunking independence, reuse). The driver hashes every message length 0..130 (thorough 0..320) "
              "under all two-way and sampled three-way chunkings with one reused hasher and HMACs over key lengths across the block "
-             "size; TLC recomputes each reference digest and compares every logged digest.",
+             "size; TLC recomputes each reference digest and compares every logged digest. Messages of 2^29..2^61 bytes (padding and 64-bit "
+             "length field) are covered by HashFrom(S, count, tail): the byte counter is injected into a fresh hasher (quick) or reached by "
+             "really hashing 512 MiB / 4 GiB (thorough) and TLC continues from the logged chaining value.",
         ref="5/C17", technique="executable TLA+ specification evaluated by TLC + trace validation of real digests; TLC model of the streaming state machine",
         note="Message content from a spec-defined LCG; lengths beyond ~20,000 bytes and the 2^29-byte length-field boundary not reached."),
     "C18": dict(
@@ -127,13 +129,15 @@ CLAIMED = {
              "operations - for multi-thread programs over distinct handles to common payloads: never touched after release, released "
              "exactly once and only after the last handle, in-place write only by the sole owner, termination. The state graphs give "
              "schedules which the REAL classes follow under the cooperative scheduler (the NSTD_VERIF hook in Atomic.hpp makes every "
-             "atomic access a scheduling point); random programs of 2-4 threads run under random schedules. Handle values after every "
+             "atomic access a scheduling point); random programs of 2-4 threads (assignment, self-assignment, append, in-place trim / shrink / "
+             "upper case, mutable accessors, clear, swap, destruction; payload kinds: String, Variant holding a string, Variants sharing an "
+             "Array / List / HashMap, Xml::Variant text / element, RefCount::Ptr) run under random schedules. Handle values after every "
              "operation and pointee destructions are validated by TLC against RefHandles; ASan / LeakSanitizer observe use-after-"
              "release, double release and leaks. In addition Apalache discharges an inductive invariant of the abstract protocol "
              "(spec/conc/apalache/RefCountInd.tla: Init => IndInv, IndInv /\\ Next => IndInv', IndInv => Safety) for behaviours of "
              "any length with 3 threads x 2 payloads.",
         ref="5/C09", technique="TLA+ model checking (TLC) + Apalache inductive invariant + schedule replay through cooperative scheduler with atomic-access hooks + TLC trace validation",
-        note="Sequential consistency at the granularity of atomic accesses; plain reads of the counter are not scheduling points; Xml::Variant's sharing is covered single-threaded by C16."),
+        note="Sequential consistency at the granularity of atomic accesses; plain reads of the counter are not scheduling points; the Layer-2 model is that of String / Variant / Ptr - the container and Xml::Variant kinds reuse its schedules."),
     "C10": dict(
         text="TLC model-checks FuturePoolImpl.tla (PlusCal transcription of src/Future.cpp: lock-free ring with per-slot sequence "
              "numbers and CAS retry, FastSignal, worker loop, ThreadPool::run with back-pressure, racy counters, spawn/retire under "
